@@ -473,6 +473,8 @@ class C17(core.PropertyCheck):
         yield from cases
 
     def shrink_candidates(self, case):
+        if "ops" not in case:      # a tree-change scenario of extra_checks: reported as found
+            return
         ops = case["ops"]
         keep = {"proj", case["scan"], "plink"}
         for flag in ("via", "cwd"):
